@@ -109,7 +109,7 @@ Proof.
   { unfold len. apply Z.ltb_ge. lia. }
   destruct T as [|t0 T'] eqn:ET.
   - left. split; [reflexivity|].
-    unfold erc20_decode. cbn [d_data d_hr d_src d_dst d_nonce d_rid].
+    unfold erc20_decode, erc20_body. cbn [d_data d_hr].
     rewrite Hguard, Hamt. cbn [bind]. rewrite HsW. cbn [bind]. rewrite Hrl64, He, HsR. cbn [bind].
     rewrite He2. assert ((96 + len R <? len (A ++ W ++ R ++ []))%Z = false) as ->.
     { rewrite Hlen. change (len []) with 0%Z. apply Z.ltb_ge. lia. }
@@ -117,7 +117,7 @@ Proof.
   - right. split; [discriminate|]. rewrite <- ET in *. clear ET t0 T'.
     intros F M -> HF HM Hfee.
     assert (HlenM : (0 < len M)%Z). { unfold len. destruct M; [contradiction|cbn; lia]. }
-    unfold erc20_decode. cbn [d_data d_hr d_src d_dst d_nonce d_rid].
+    unfold erc20_decode, erc20_body. cbn [d_data d_hr].
     rewrite Hguard, Hamt. cbn [bind]. rewrite HsW. cbn [bind]. rewrite Hrl64, He, HsR. cbn [bind].
     rewrite He2. assert ((96 + len R <? len (A ++ W ++ R ++ F ++ M))%Z = true) as ->.
     { rewrite Hlen, len_app, (len_32 F HF). apply Z.ltb_lt. lia. }
@@ -411,7 +411,7 @@ Proof.
   { rewrite sub_len_small by (try exact HW; rewrite Hrl; exact HlenN). rewrite Hrl. unfold len. lia. }
   assert (HlenR : (0 <= len R < 2 ^ 62)%Z).
   { unfold len. split; [lia|]. apply N2Z.inj_lt in HlenN. rewrite nat_N_Z in HlenN. exact HlenN. }
-  unfold sub_decode. cbn [d_data d_src d_dst d_nonce d_rid].
+  unfold sub_decode, sub_body. cbn [d_data].
   assert ((len (A ++ W ++ R) <? 84)%Z = false) as -> by (unfold len; apply Z.ltb_ge; lia).
   rewrite (sl_head A (W ++ R) 32) by (now rewrite (len_32 A HA)). cbn [bind].
   rewrite (sl_parts A W R 32 64) by (rewrite ?(len_32 A HA), ?(len_32 W HW); reflexivity). cbn [bind].
@@ -510,7 +510,7 @@ Proof.
   { rewrite Hml, int64_small by exact HMN. unfold len. lia. }
   unfold relay, decode, encode, spec_proposal, spec_dst, spec_gas, spec_data.
   cbn [d_src d_dst d_nonce d_rid d_data].
-  unfold erc721_decode. cbn [d_data d_src d_dst d_nonce d_rid].
+  unfold erc721_decode, erc721_body. cbn [d_data].
   set (cd := A ++ W ++ R ++ L ++ Mt).
   assert (Hlen : len cd = (96 + len R + len Mt)%Z).
   { unfold cd. rewrite !len_app, (len_32 A HA), (len_32 W HW), (len_32 L HL). lia. }
@@ -651,7 +651,7 @@ Proof.
     apply sl_from_parts; rewrite !len_app, (len_32 F HF), HlS2; change (len [c]) with 1%Z; change (len [dd]) with 1%Z; lia. }
   unfold relay, decode, encode, spec_proposal, spec_dst, spec_gas, spec_data.
   cbn [d_src d_dst d_nonce d_rid d_data].
-  unfold generic_decode. cbn [d_data d_src d_dst d_nonce d_rid]. fold cd.
+  unfold generic_decode, generic_body. cbn [d_data]. fold cd.
   assert ((len cd <? 76)%Z = false) as -> by (apply Z.ltb_ge; unfold len; lia).
   rewrite S1. cbn [bind]. rewrite S2'. cbn [bind]. rewrite Hfs64.
   rewrite (wrap64s_small (34 + len FS)) by lia. rewrite S3. cbn [bind].
@@ -767,7 +767,7 @@ Proof.
   intros src dst nonce rid hr am H40 D HH Hhex Hdig HD Hdv.
   destruct (hex_lenient_strict 20 H40 HH Hhex) as [Els L20].
   split; [|exact L20].
-  unfold btc_decode. cbn [d_data d_src d_nonce d_rid d_amount].
+  unfold btc_decode, btc_body. cbn [d_data d_amount].
   change ("0"%byte :: "x"%byte :: H40 ++ ch_us :: D) with (("0"%byte :: "x"%byte :: H40) ++ ch_us :: D).
   rewrite split_us_first.
   2:{ cbn [forallb]. apply (forallb_impl is_hex); [apply hex_not_us | exact Hhex]. }
@@ -925,3 +925,292 @@ Proof.
   - replace (P ++ Hd ++ Q ++ Lw) with ((P ++ Hd ++ Q) ++ Lw) by now rewrite <- !app_assoc.
     rewrite len_app, <- Hoff, (len_32 Lw HLw). change (len b) with (Z.of_nat (length b)). lia.
 Qed.
+
+Ltac reassoc := repeat rewrite <- app_assoc; cbn [app]; repeat rewrite <- app_assoc; reflexivity.
+
+Lemma length_pad_right32 : forall b, (length b <= length (pad_right32 b) <= length b + 32)%nat.
+Proof.
+  intros b. unfold pad_right32. rewrite app_length, repeat_length.
+  pose proof (Nat.mod_upper_bound (32 - length b mod 32) 32). lia.
+Qed.
+
+Lemma erc1155_roundtrip_decode : forall src dst nonce rid hr am ids ams rc td,
+  wf_erc1155_parts ids ams rc td = true ->
+  erc1155_decode (mkDep src dst nonce rid (abi_encode ids ams rc td) hr am) =
+  Ok (mkMsg src dst nonce rid SemiFungible [PI ids; PI ams; PB rc; PB td] None).
+Proof.
+  intros src dst nonce rid hr am ids ams rc td Hwf.
+  unfold wf_erc1155_parts in Hwf.
+  apply andb_true_iff in Hwf as [Hwf Htd]. apply andb_true_iff in Hwf as [Hwf Hn2].
+  apply andb_true_iff in Hwf as [Hwf Hn1]. apply andb_true_iff in Hwf as [Hwf Hrc].
+  apply andb_true_iff in Hwf as [Hids Hams].
+  apply N.ltb_lt in Htd. apply N.ltb_lt in Hn2. apply N.ltb_lt in Hn1. apply Nat.eqb_eq in Hrc.
+  unfold nlen in Htd.
+  unfold erc1155_decode, erc1155_body. cbn [d_data].
+  unfold abi_encode. cbv zeta.
+  set (f1 := flat_map u256 ids). set (f2 := flat_map u256 ams).
+  set (p3 := pad_right32 rc). set (p4 := pad_right32 td).
+  unfold abi_enc_array, abi_enc_bytes. fold f1 f2 p3 p4.
+  set (L1 := u256 (N.of_nat (length ids))). set (L2 := u256 (N.of_nat (length ams))).
+  set (L3 := u256 (N.of_nat (length rc))). set (L4 := u256 (N.of_nat (length td))).
+  assert (Hf1 : length f1 = (32 * length ids)%nat) by apply length_flat_u256.
+  assert (Hf2 : length f2 = (32 * length ams)%nat) by apply length_flat_u256.
+  pose proof (length_pad_right32 rc) as Hp3. fold p3 in Hp3.
+  pose proof (length_pad_right32 td) as Hp4. fold p4 in Hp4.
+  assert (HL1 : length L1 = 32%nat) by apply length_u256. assert (HL2 : length L2 = 32%nat) by apply length_u256.
+  assert (HL3 : length L3 = 32%nat) by apply length_u256. assert (HL4 : length L4 = 32%nat) by apply length_u256.
+  rewrite !app_length, HL1, HL2, HL3, Hf1, Hf2.
+  set (o1 := 128%nat). set (o2 := (o1 + (32 + 32 * length ids))%nat).
+  set (o3 := (o2 + (32 + 32 * length ams))%nat). set (o4 := (o3 + (32 + length p3))%nat).
+  set (H1 := u256 (N.of_nat o1)). set (H2 := u256 (N.of_nat o2)). set (H3 := u256 (N.of_nat o3)). set (H4 := u256 (N.of_nat o4)).
+  assert (HH1 : length H1 = 32%nat) by apply length_u256. assert (HH2 : length H2 = 32%nat) by apply length_u256.
+  assert (HH3 : length H3 = 32%nat) by apply length_u256. assert (HH4 : length H4 = 32%nat) by apply length_u256.
+  assert (P32 : (2 ^ 32 < 2 ^ 62)%N) by (apply N.pow_lt_mono_r; lia).
+  assert (P62 : (2 ^ 62 < 2 ^ 256)%N) by (apply N.pow_lt_mono_r; lia).
+  assert (P40 : (2 ^ 32 * 64 + 1000 < 2 ^ 62)%N) by (vm_compute; reflexivity).
+  assert (Bo1 : (N.of_nat o1 < 2 ^ 62)%N) by (unfold o1; lia).
+  assert (Bo2 : (N.of_nat o2 < 2 ^ 62)%N) by (unfold o2, o1; lia).
+  assert (Bo3 : (N.of_nat o3 < 2 ^ 62)%N) by (unfold o3, o2, o1; lia).
+  assert (Bo4 : (N.of_nat o4 < 2 ^ 62)%N) by (unfold o4, o3, o2, o1; lia).
+  assert (Hrc32 : (N.of_nat (length rc) < 2 ^ 32)%N) by (rewrite Hrc; vm_compute; reflexivity).
+  set (cd := H1 ++ H2 ++ H3 ++ H4 ++ (L1 ++ f1) ++ (L2 ++ f2) ++ (L3 ++ p3) ++ L4 ++ p4).
+  (* ids *)
+  assert (A1 : abi_uint_array 0 cd = Ok ids).
+  { replace cd with ([] ++ H1 ++ (H2 ++ H3 ++ H4) ++ L1 ++ f1 ++ ((L2 ++ f2) ++ (L3 ++ p3) ++ L4 ++ p4)) by (unfold cd; reassoc).
+    apply (abi_uint_array_at [] H1 (H2 ++ H3 ++ H4) ids _ (N.of_nat o1)); try assumption.
+    - apply be_to_N_u256. lia.
+    - cbn [app]. unfold len. rewrite !app_length, HH1, HH2, HH3, HH4. reflexivity. }
+  assert (A2 : abi_uint_array 32 cd = Ok ams).
+  { replace cd with (H1 ++ H2 ++ (H3 ++ H4 ++ L1 ++ f1) ++ L2 ++ f2 ++ ((L3 ++ p3) ++ L4 ++ p4)) by (unfold cd; reassoc).
+    replace 32%Z with (len H1) by (now rewrite (len_32 H1 HH1)).
+    apply (abi_uint_array_at H1 H2 (H3 ++ H4 ++ L1 ++ f1) ams _ (N.of_nat o2)); try assumption.
+    - apply be_to_N_u256. lia.
+    - unfold len. rewrite !app_length, HH1, HH2, HH3, HH4, HL1, Hf1. unfold o2, o1. lia. }
+  assert (A3 : abi_bytes 64 cd = Ok rc).
+  { replace cd with ((H1 ++ H2) ++ H3 ++ (H4 ++ L1 ++ f1 ++ L2 ++ f2) ++ L3 ++ rc ++
+                     (repeat x00 ((32 - length rc mod 32) mod 32) ++ L4 ++ p4)) by (unfold cd, p3, pad_right32; reassoc).
+    replace 64%Z with (len (H1 ++ H2)) by (now rewrite len_app, (len_32 H1 HH1), (len_32 H2 HH2)).
+    apply (abi_bytes_at (H1 ++ H2) H3 (H4 ++ L1 ++ f1 ++ L2 ++ f2) rc _ (N.of_nat o3)); try assumption.
+    - apply be_to_N_u256. lia.
+    - unfold len. rewrite !app_length, HH1, HH2, HH3, HH4, HL1, Hf1, HL2, Hf2. unfold o3, o2, o1. lia. }
+  assert (A4 : abi_bytes 96 cd = Ok td).
+  { replace cd with ((H1 ++ H2 ++ H3) ++ H4 ++ (L1 ++ f1 ++ L2 ++ f2 ++ L3 ++ p3) ++ L4 ++ td ++
+                     (repeat x00 ((32 - length td mod 32) mod 32))) by (unfold cd, p4, pad_right32; reassoc).
+    replace 96%Z with (len (H1 ++ H2 ++ H3)) by (now rewrite !len_app, (len_32 H1 HH1), (len_32 H2 HH2), (len_32 H3 HH3)).
+    apply (abi_bytes_at (H1 ++ H2 ++ H3) H4 (L1 ++ f1 ++ L2 ++ f2 ++ L3 ++ p3) td _ (N.of_nat o4)); try assumption.
+    - apply be_to_N_u256. lia.
+    - unfold len. rewrite !app_length, HH1, HH2, HH3, HH4, HL1, Hf1, HL2, Hf2, HL3. unfold o4, o3, o2, o1. lia. }
+  fold cd. rewrite A1. cbn [bind]. rewrite A2. cbn [bind]. rewrite A3. cbn [bind]. rewrite A4. reflexivity.
+Qed.
+
+(* ---- envelopes (for ALL inputs, well-formed or not) --------------------------------------------------------------- *)
+
+Ltac inv_ok :=
+  repeat match goal with
+  | H : Ok _ = Ok _ |- _ => injection H as <-
+  | H : bind ?e _ = Ok _ |- _ => destruct e eqn:?; cbn [bind] in H; try discriminate H
+  | H : (if ?c then _ else _) = Ok _ |- _ => destruct c eqn:?; try discriminate H
+  | H : (let '(_, _) := ?x in _) = Ok _ |- _ => destruct x
+  | H : match ?x with _ => _ end = Ok _ |- _ => destruct x eqn:?; try discriminate H
+  end.
+
+Definition env_of (d : deposit) (m : message) : Prop :=
+  m_src m = d_src d /\ m_nonce m = d_nonce d /\ m_rid m = d_rid d.
+
+Lemma wrap_env : forall d t r m, wrap d t r = Ok m ->
+  env_of d m /\ m_dst m = d_dst d /\ m_type m = t /\ r = Ok (m_payload m, m_gas m).
+Proof.
+  intros d t r m H. unfold wrap in H. destruct r as [[p g]| | |]; try discriminate.
+  injection H as <-. repeat split; reflexivity.
+Qed.
+
+Lemma decode_env : forall sk d m, decode sk d = Ok m ->
+  env_of d m /\ (sk <> SBtc -> m_dst m = d_dst d).
+Proof.
+  intros sk d m H. destruct sk; cbn [decode] in H;
+    try (apply wrap_env in H; destruct H as (He & Hd & _); split; [exact He | intros _; exact Hd]).
+  unfold btc_decode in H. destruct (btc_body (d_data d) (d_amount d)) as [[dst p]| | |]; try discriminate.
+  injection H as <-. split; [repeat split; reflexivity | intros C; contradiction].
+Qed.
+
+Lemma encode_env : forall dk m p, encode dk m = Ok p ->
+  p_src p = m_src m /\ p_dst p = m_dst m /\ p_nonce p = m_nonce m /\ p_rid p = m_rid m.
+Proof.
+  intros dk m p H. destruct dk; cbn [encode] in H.
+  - unfold evm_encode in H. destruct (m_type m).
+    + unfold evm_erc20 in H. inv_ok; repeat split; reflexivity.
+    + unfold evm_erc721 in H. inv_ok; repeat split; reflexivity.
+    + unfold evm_erc1155 in H. inv_ok; repeat split; reflexivity.
+    + unfold evm_generic in H. inv_ok; repeat split; reflexivity.
+  - unfold sub_encode in H. inv_ok; repeat split; reflexivity.
+  - unfold btc_encode in H. inv_ok; repeat split; reflexivity.
+Qed.
+
+Lemma relay_envelope : forall sk dk d p, relay sk dk d = Ok p ->
+  p_src p = d_src d /\ p_nonce p = d_nonce d /\ p_rid p = d_rid d /\ (sk <> SBtc -> p_dst p = d_dst d).
+Proof.
+  intros sk dk d p H. unfold relay in H.
+  destruct (decode sk d) as [m| | |] eqn:Ed; cbn [bind] in H; try discriminate.
+  destruct (decode_env sk d m Ed) as [(E1 & E2 & E3) E4].
+  destruct (encode_env dk m p H) as (F1 & F2 & F3 & F4).
+  repeat split; try congruence. intros Hs. rewrite F2. auto.
+Qed.
+
+(* ---- ERC1155 through the relay --------------------------------------------------------------------------------------- *)
+
+Lemma erc1155_relay_evm : forall d, wf_erc1155 d = true ->
+  relay SErc1155 DEvm d = Ok (spec_proposal SErc1155 DEvm d).
+Proof.
+  intros d Hwf. unfold wf_erc1155 in Hwf.
+  destruct (erc1155_decode d) as [m| | |] eqn:Ed; try discriminate.
+  destruct (decode_env SErc1155 d m Ed) as [(E1 & E2 & E3) E4]. specialize (E4 ltac:(discriminate)).
+  assert (Ety : m_type m = SemiFungible /\ m_gas m = None).
+  { unfold erc1155_decode in Ed. apply wrap_env in Ed. destruct Ed as (_ & _ & Ht & Hr). split; [exact Ht|].
+    unfold erc1155_body in Hr. inv_ok. injection Hr as _ Hg. now rewrite <- Hg. }
+  destruct Ety as [Ety Egas].
+  destruct m as [s t n r ty pl g]. cbn [m_src m_dst m_nonce m_rid m_type m_gas] in *. subst.
+  destruct pl as [|[?|ids] [|[?|ams] [|[rc|?] [|[td|?] [|? ?]]]]]; try discriminate.
+  apply andb_true_iff in Hwf as [Hparts Heq]. apply bytes_eqb_eq in Heq.
+  unfold wf_erc1155_parts in Hparts.
+  assert (Hrc : (length rc =? 20)%nat = true).
+  { repeat (apply andb_true_iff in Hparts as [Hparts ?]). assumption. }
+  unfold relay, decode. rewrite Ed. cbn [bind encode evm_encode m_type].
+  unfold evm_erc1155. cbn [m_payload length Nat.eqb negb pint pb nth_error bind]. rewrite Hrc. cbn [negb bind].
+  unfold spec_proposal, spec_dst, spec_gas, spec_data, mk_prop. cbn [m_src m_dst m_nonce m_rid m_gas].
+  now rewrite Heq.
+Qed.
+
+Lemma wf_erc1155_canonical : forall src dst nonce rid hr am ids ams rc td,
+  wf_erc1155_parts ids ams rc td = true ->
+  wf_erc1155 (mkDep src dst nonce rid (abi_encode ids ams rc td) hr am) = true.
+Proof.
+  intros. unfold wf_erc1155. rewrite erc1155_roundtrip_decode by assumption.
+  cbn [d_data]. rewrite H. apply bytes_eqb_refl.
+Qed.
+
+(* ---- everything together ------------------------------------------------------------------------------------------------ *)
+
+Lemma relay_spec : forall sk dk d, wf sk dk d = true -> relay sk dk d = Ok (spec_proposal sk dk d).
+Proof.
+  intros sk dk d H. destruct sk, dk; cbn [wf] in H; try discriminate.
+  - now apply erc20_relay_evm.
+  - apply andb_true_iff in H as [H1 H2]. apply negb_true_iff in H2. now apply erc20_relay_sub.
+  - apply andb_true_iff in H as [H H3]. apply andb_true_iff in H as [H1 H2]. apply negb_true_iff in H2.
+    now apply erc20_relay_btc.
+  - now apply erc721_relay_evm.
+  - now apply erc1155_relay_evm.
+  - now apply generic_relay_evm.
+  - now apply sub_relay_evm.
+  - now apply sub_relay_sub.
+  - apply andb_true_iff in H as [H1 H2]. now apply sub_relay_btc.
+  - now apply (btc_relay DEvm).
+  - now apply (btc_relay DSub).
+  - now apply (btc_relay DBtcK).
+Qed.
+
+Lemma optN_eqb_eq : forall a b, optN_eqb a b = true <-> a = b.
+Proof.
+  intros [x|] [y|]; cbn; split; intros H; try discriminate; try reflexivity.
+  - apply N.eqb_eq in H. now subst.
+  - injection H as ->. apply N.eqb_refl.
+Qed.
+
+Lemma pdata_eqb_eq : forall a b, pdata_eqb a b = true <-> a = b.
+Proof.
+  intros [x|x r] [y|y s]; cbn; split; intros H; try discriminate.
+  - apply bytes_eqb_eq in H. now subst.
+  - injection H as ->. apply bytes_eqb_refl.
+  - apply andb_true_iff in H as [H1 H2]. apply N.eqb_eq in H1. apply bytes_eqb_eq in H2. now subst.
+  - injection H as -> ->. now rewrite N.eqb_refl, bytes_eqb_refl.
+Qed.
+
+Lemma proposal_eqb_eq : forall a b, proposal_eqb a b = true <-> a = b.
+Proof.
+  intros [a1 a2 a3 a4 a5 a6] [b1 b2 b3 b4 b5 b6]. unfold proposal_eqb.
+  cbn [p_src p_dst p_nonce p_rid p_gas p_data]. split.
+  - intros H. repeat (apply andb_true_iff in H as [H ?]).
+    apply N.eqb_eq in H. apply N.eqb_eq in H4. apply N.eqb_eq in H3. apply bytes_eqb_eq in H2.
+    apply optN_eqb_eq in H1. apply pdata_eqb_eq in H0. now subst.
+  - intros H. injection H as -> -> -> -> -> ->.
+    rewrite !N.eqb_refl, bytes_eqb_refl. cbn [andb].
+    assert (optN_eqb b5 b5 = true) as -> by now apply optN_eqb_eq.
+    now apply pdata_eqb_eq.
+Qed.
+
+Lemma spec_ok_model : forall sk dk d, spec_ok sk dk d (relay sk dk d) = true.
+Proof.
+  intros sk dk d. unfold spec_ok. destruct (wf sk dk d) eqn:Hwf; [|reflexivity].
+  rewrite (relay_spec sk dk d Hwf). now apply proposal_eqb_eq.
+Qed.
+
+Lemma spec_ok_sound : forall sk dk d impl, spec_ok sk dk d impl = true -> wf sk dk d = true ->
+  impl = Ok (spec_proposal sk dk d).
+Proof.
+  intros sk dk d impl H Hwf. unfold spec_ok in H. rewrite Hwf in H.
+  destruct impl as [p| | |]; try discriminate. apply proposal_eqb_eq in H. now subst.
+Qed.
+
+(* ---- the named statements of DESIGN.md section 5 ---------------------------------------------------------------------- *)
+
+Lemma erc20_relay_data : forall d, wf_erc20 d = true ->
+  exists p, relay SErc20 DEvm d = Ok p /\ p_data p = DBytes (spec_erc20_data d) /\ p_gas p = spec_erc20_gas d.
+Proof. intros d H. eexists. split; [apply erc20_relay_evm; exact H|]. split; reflexivity. Qed.
+
+(* the reference spelled out on the parts of the calldata *)
+Lemma erc20_spec_explicit : forall src dst nonce rid am A W R F M hr amt,
+  length A = 32%nat -> length W = 32%nat -> be_to_N W = N.of_nat (length R) -> hr_amount A hr amt ->
+  length F = 32%nat -> M <> [] ->
+  spec_erc20_data (mkDep src dst nonce rid (A ++ W ++ R ++ []) hr am) = amt ++ W ++ R /\
+  spec_erc20_data (mkDep src dst nonce rid (A ++ W ++ R ++ F ++ M) hr am)
+    = amt ++ W ++ R ++ u256 (be_to_N F + OPTIONAL_REVERT_GAS) ++ M.
+Proof.
+  intros. split.
+  - now apply (spec_erc20_notail src dst nonce rid am A W R hr amt).
+  - now apply (spec_erc20_tail src dst nonce rid am A W R F M hr amt).
+Qed.
+
+Lemma erc721_roundtrip : forall d, wf_erc721 d = true ->
+  exists p, relay SErc721 DEvm d = Ok p /\ p_data p = DBytes (d_data d) /\ p_gas p = None.
+Proof. intros d H. eexists. split; [apply erc721_relay_evm; exact H|]. split; reflexivity. Qed.
+
+Lemma generic_roundtrip : forall d, wf_generic d = true ->
+  exists p, relay SGeneric DEvm d = Ok p /\ p_data p = DBytes (d_data d) /\
+            p_gas p = Some (word_at 0 (d_data d) mod 2 ^ 64)%N.
+Proof. intros d H. eexists. split; [apply generic_relay_evm; exact H|]. split; reflexivity. Qed.
+
+Lemma erc1155_roundtrip : forall src dst nonce rid hr am ids ams rc td,
+  wf_erc1155_parts ids ams rc td = true ->
+  relay SErc1155 DEvm (mkDep src dst nonce rid (abi_encode ids ams rc td) hr am) =
+  Ok (mkProp src dst nonce rid None (DBytes (abi_encode ids ams rc td))).
+Proof.
+  intros. rewrite erc1155_relay_evm by (now apply wf_erc1155_canonical). reflexivity.
+Qed.
+
+Lemma substrate_relay_data : forall d dk, wf_sub d = true -> dk <> DBtcK ->
+  exists p, relay SSub dk d = Ok p /\ p_data p = DBytes (d_data d).
+Proof.
+  intros d dk H Hk. destruct dk; [| |contradiction]; eexists.
+  - split; [now apply sub_relay_evm | reflexivity].
+  - split; [now apply sub_relay_sub | reflexivity].
+Qed.
+
+Lemma btc_source_scaled : forall d, wf_btc d = true ->
+  exists p addr, relay SBtc DEvm d = Ok p /\ length addr = 20%nat /\
+    p_data p = DBytes (u256 (d_amount d * BTC_SCALE) ++ u256 20 ++ addr) /\
+    be_to_N (u256 (d_amount d * BTC_SCALE)) = (d_amount d * BTC_SCALE)%N /\
+    p_dst p = dec_value (btc_dom_part d).
+Proof.
+  intros d H. destruct (wf_btc_view d H) as (H40 & D & E & HH & Hhex & Hdig & HD & Hdv & Hap & Hdp & Ham).
+  exists (spec_proposal SBtc DEvm d), (hex_strict (btc_addr_part d)).
+  split; [apply (btc_relay DEvm); exact H|]. split.
+  - rewrite Hap. apply (hex_lenient_strict 20 H40 HH Hhex).
+  - split; [reflexivity|]. split; [apply be_to_N_u256; exact Ham | reflexivity].
+Qed.
+
+Lemma btc_dest_scaled : forall sk d, wf sk DBtcK d = true ->
+  exists p, relay sk DBtcK d = Ok p /\
+    p_data p = DBtc (be_to_N (firstn 32 (spec_fungible_data sk d)) / BTC_SCALE) (skipn 64 (spec_fungible_data sk d)).
+Proof. intros sk d H. eexists. split; [apply relay_spec; exact H | reflexivity]. Qed.
+
+Lemma gas_limit_meta : forall sk dk d p, wf sk dk d = true -> relay sk dk d = Ok p -> p_gas p = spec_gas sk dk d.
+Proof. intros sk dk d p H E. rewrite (relay_spec sk dk d H) in E. injection E as <-. reflexivity. Qed.
